@@ -34,7 +34,7 @@ TECHNIQUE = ("deterministic simulation: real client session/connector on a virtu
              "scripted raw server that goes silent at an enumerated protocol phase, enumerated timeout kind/value and "
              "cancellation before every step of the calling task; time bound and residue judged at quiescence")
 LEVEL_TEXT = (
-    "Complete enumeration of a grid: stall point (11 phases + none) x timeout kind (total / connect / sock_connect / "
+    "Complete enumeration of a grid: stall point (11 phases + none, and the TLS handshake of an https target) x timeout kind (total / connect / sock_connect / "
     "sock_read / ws_close / none, below and above the ceil threshold) x bystander layout, and for every stall point x "
     "covering timeout x layout x trace hooks x body kind the cancellation of the calling task before every one of its "
     "steps (the steps are counted by an un-cancelled execution of the same scenario on the same choice tape) and a "
@@ -56,7 +56,7 @@ LEVEL_NOTE = (
 )
 RULE = (
     "Run = scenario (op http|ws, request body none/bytes/streamed, response framing/size/pieces, victim read mode "
-    "incl. slow consumer with small read buffer, stall point and duration, timeout kind and value, ceil threshold, pool "
+    "incl. slow consumer with small read buffer, stall point and duration, http or https target (scripted TLS handshake: delay / stall / reset), timeout kind and value, ceil threshold, pool "
     "limit / per-host limit, bystanders with host/start offset/server delay, DNS delay, 1-2 addresses, trace hooks, "
     "segmentation, latency, early follow-up or not) executed un-cancelled, then once per requested cancel point (before "
     "the k-th step of the calling task, all k or one) or per total-timeout instant. Non-trivial: the stall point was "
@@ -70,7 +70,9 @@ ENUM_RULE = (
     "bystander layouts x trace hooks on/off x body kind: cancel before every step k < K of the calling task; (2b) "
     "WebSocket connect/send/receive/close without stall: every step; (3) fault-free exchange x body kind x layout x "
     "trace hooks: total timeout on every instant at which the calling task runs; (4) slow consumer with paused "
-    "transport under sock_read with/without a body stall"
+    "transport under sock_read with/without a body stall; (5) https target with a scripted TLS handshake after the "
+    "TCP connect: handshake stalled x {none, total/connect/sock_connect/sock_read x values} x layout x 1-2 addresses, "
+    "and cancel before every step with the handshake stalled / slow / reset by the peer"
 )
 COMPONENTS = {
     "real": ["aiohttp.ClientSession", "TCPConnector / BaseConnector / Connection", "client_proto.ResponseHandler",
@@ -78,7 +80,9 @@ COMPONENTS = {
              "streams.StreamReader", "http_parser / http_writer (Python)", "client_ws.ClientWebSocketResponse",
              "asyncio tasks, timers, shield"],
     "stub": ["network (SimNet)", "resolver (SimResolver)", "aiohappyeyeballs (connect through SimNet)",
-             "server peer (scripted raw HTTP/WebSocket server)", "TLS"],
+             "server peer (scripted raw HTTP/WebSocket server)",
+             "TLS (https targets: loop.create_connection(ssl=, sock=) runs a scripted handshake phase - delay, stall, "
+             "reset - before the plain in-memory connection is handed over; no records, no certificates)"],
 }
 ASSUMPTIONS = [
     "TCP stream semantics of SimNet; a stall is the absence of events",
@@ -100,15 +104,22 @@ EPS = 1e-6
 STALL_POINTS = ["pool", "dns", "connect", "send_body", "status", "header", "hdr_body", "body", "chunk_size",
                 "final_chunk", "ws_close"]
 RESP_POINTS = ("status", "header", "hdr_body", "body", "chunk_size", "final_chunk")
+# An https target: the TCP connect succeeds and the peer then stalls the TLS handshake (never answers the
+# ClientHello).  Kept out of STALL_POINTS so that the seeded generator's first draw keeps its meaning; gen()
+# samples it last.
+TLS_POINT = "tls"
+ALL_POINTS = STALL_POINTS + [TLS_POINT]
 TIMEOUT_KINDS = ["total", "connect", "sock_connect", "sock_read", "ws_close"]
 
 # ------------------------------------------------------------------ reference model
 # Written from docs/client_quickstart.rst ("Timeouts") and docs/client_reference.rst
 # (ClientTimeout, ClientWSTimeout, exception hierarchy), not from the code.
 COVERS = {
-    "total": frozenset(STALL_POINTS) - {"ws_close"},   # "the whole request": connection, sending, response, body
-    "connect": frozenset({"pool", "dns", "connect"}),  # acquiring a connection: queueing for the pool + establishing
-    "sock_connect": frozenset({"connect"}),            # connecting to a peer for a new connection (per attempt)
+    "total": frozenset(ALL_POINTS) - {"ws_close"},     # "the whole request": connection, sending, response, body
+    "connect": frozenset({"pool", "dns", "connect", TLS_POINT}),  # acquiring a connection: queueing + establishing
+    # connecting to a peer for a new connection (per attempt); for an https target the connection is
+    # established when the TLS handshake is done, not when the TCP connect returns
+    "sock_connect": frozenset({"connect", TLS_POINT}),
     "sock_read": frozenset(RESP_POINTS),               # period between reading portions of data from the peer
     "ws_close": frozenset({"ws_close"}),               # the websocket to close
 }
@@ -141,6 +152,8 @@ def oracle_selftest():
     assert not covers("sock_connect", "pool") and covers("sock_connect", "connect")
     assert covers("sock_read", "final_chunk") and not covers("connect", "status")
     assert covers("ws_close", "ws_close") and not covers("total", "ws_close") and not covers("none", "status")
+    assert covers("sock_connect", "tls") and covers("connect", "tls") and covers("total", "tls")
+    assert not covers("sock_read", "tls") and not covers("ws_close", "tls") and "tls" not in STALL_POINTS
     full, cuts = build_response({"framing": "chunked", "size": 600, "nchunks": 3})
     assert full.endswith(b"0\r\n\r\n") and full[cuts["final_chunk"]:] == b"0\r\n\r\n"
     assert full[:cuts["hdr_body"]].endswith(b"\r\n\r\n") and cuts["status"] == 0
@@ -666,7 +679,8 @@ class Exec:
             kw["read_bufsize"] = rd["bufsize"]
         method = "POST" if (scn.get("body") or {"kind": "none"})["kind"] != "none" else "GET"
         rec["t_call"] = loop.time()
-        async with self.session.request(method, f"http://{V_HOST}/victim", data=self._body(), timeout=to, **kw) as resp:
+        async with self.session.request(method, f"{self.v_scheme}://{V_HOST}/victim", data=self._body(), timeout=to,
+                                        **kw) as resp:
             rec["t_headers"] = loop.time()
             if rd["mode"] == "read":
                 body = await resp.read()
@@ -688,7 +702,7 @@ class Exec:
         to = scn.get("timeout")
         wsc = to["value"] if to and to["kind"] == "ws_close" else None
         rec["t_call"] = loop.time()
-        async with self.session.ws_connect(f"http://{V_HOST}/victim-ws",
+        async with self.session.ws_connect(f"{self.v_scheme}://{V_HOST}/victim-ws",
                                            timeout=self.aiohttp.ClientWSTimeout(ws_close=wsc)) as ws:
             rec["t_headers"] = loop.time()
             try:
@@ -703,15 +717,47 @@ class Exec:
         return ("ws", closed, ws.close_code, type(exc).__name__ if exc is not None else None)
 
     async def _simple(self, host, path):
-        async with self.session.get(f"http://{host}{path}") as resp:
+        scheme = self.v_scheme if host == V_HOST else "http"
+        async with self.session.get(f"{scheme}://{host}{path}") as resp:
             body = await resp.read()
         return (resp.status, body)
+
+    async def _handshake(self, addr):
+        """Scripted TLS handshake of a client connection whose TCP connect has succeeded (SimNet has no
+        TLS): it takes `delay`, stalls when the victim's handshake is the stall point (for ever: the peer never
+        answers the ClientHello, or for `dur`), or fails once for the victim with a connection reset."""
+        loop, tls, rec = self.loop, self.scn["tls"], self.rec
+        t = asyncio.current_task()
+        name = t.get_name() if t is not None else "?"
+        first = not any(n == name for _, n, _ in self.handshakes)
+        self.handshakes.append((loop.time(), name, addr))
+        if name == "victim" and self.point == TLS_POINT:
+            loop.faults["stall_tls"] += 1
+            loop.note("tls_handshake", f"{addr}:stall")
+            self.server.stall_reached, self.server.stall_t = True, loop.time()
+            fut = loop.create_future()
+            if self.scn["stall"].get("dur"):
+                loop.sim_call_later(self.scn["stall"]["dur"], lambda: fut.done() or fut.set_result(None))
+            await fut  # cancellable; never completes without `dur`
+            return
+        fail = bool(name == "victim" and tls.get("fail") and first)
+        loop.note("tls_handshake", f"{addr}:{'fail' if fail else 'ok'}")
+        if tls.get("delay"):
+            fut = loop.create_future()
+            loop.sim_call_later(tls["delay"], lambda: fut.done() or fut.set_result(None))
+            await fut
+        if fail:
+            loop.faults["tls_fail"] += 1
+            rec["tls_failed"] = True
+            raise ConnectionResetError(104, "Connection reset by peer during the TLS handshake")
 
     # -------------------------------------------------------------- the run
     def run(self):
         scn = self.scn
         stall = scn.get("stall")
         self.point = stall["point"] if stall else None
+        self.v_scheme = "https" if scn.get("tls") else "http"
+        self.handshakes = []
         with World(self.ch, 0, log_events=self.log) as w:
             self.w = w
             self.loop = loop = w.loop
@@ -741,6 +787,18 @@ class Exec:
         self.server = server = Server(loop, net, scn)
         for ip in V_IPS + [B_IP]:
             net.listen(server.factory, ip, 80)
+        if scn.get("tls"):
+            # every request for the victim's host goes to https://: the connector hands the connected socket
+            # and an SSL context to loop.create_connection(), which is where the handshake takes place
+            for ip in V_IPS:
+                net.listen(server.factory, ip, 443)
+            plain_create_connection = loop.create_connection
+
+            async def create_connection(factory, host=None, port=None, *, ssl=None, sock=None, **kw):
+                if ssl is not None and sock is not None:
+                    await self._handshake(sock.sim_addr)
+                return await plain_create_connection(factory, host, port, ssl=ssl, sock=sock, **kw)
+            loop.create_connection = create_connection
         pol_c2s, pol_s2c = scn.get("seg_c2s", "mss"), scn.get("seg_s2c", "whole")
         self.ctrs = []
 
@@ -984,6 +1042,8 @@ class Exec:
         pr = self.probes
         if server.stall_reached:
             pr["stall_reached_" + str(self.point)] += 1
+        if self.handshakes:
+            pr["tls_handshakes"] += len(self.handshakes)
         if rec.get("waiters_seen"):
             pr["request_queued_for_pool_slot"] += 1
         if rec.get("dns_shared"):
@@ -1154,7 +1214,11 @@ class Exec:
                                  f"{kind} timeout at '{point}' raised {rec.get('exc')}; documented: {EXPECT_CLASS[kind]}")
 
         # ---- no spurious failure
-        if not cancelled_by_us and rec["outcome"] == "error":
+        if not cancelled_by_us and rec["outcome"] == "error" and rec.get("tls_failed") and \
+                isinstance(exc, self.aiohttp.ClientConnectorError):
+            # the peer reset the connection during the (scripted) TLS handshake and no other address was left
+            self.probes["tls_handshake_failure_reported"] += 1
+        elif not cancelled_by_us and rec["outcome"] == "error":
             self.violate("no_spurious_failure", f"error:{rec.get('exc')}:{phase}",
                          f"the peer never disconnects or misbehaves, yet the victim failed with {vt.exception()!r} in "
                          f"phase {phase} (stall={stall}, timeout={to})")
@@ -1361,7 +1425,7 @@ def run(scn, ch, log=False):
     stall = scn.get("stall")
     shape = (f"{scn.get('op', 'http')}-{stall['point'] if stall else 'nostall'}-{to['kind'] if to else 'none'}-"
              f"{(scn.get('body') or {}).get('kind', 'none')}-b{len(scn.get('bystanders') or [])}-"
-             f"{'c' + str(cancel['k']) if cancel else 'nc'}")
+             f"{'c' + str(cancel['k']) if cancel else 'nc'}{'+tls' if scn.get('tls') else ''}")
     res = {"violations": viols, "nontrivial": nontrivial, "sig": sig.hexdigest(), "digest": digest.hexdigest(),
            "steps": tot["steps"], "vtime": tot["vtime"], "faults": dict(faults),
            "probes": {k: v for k, v in sorted(probes.items()) if v}, "shape": shape}
@@ -1403,7 +1467,9 @@ def _for_stall(scn, point, dur=None):
         scn["limit"] = n
         scn["limit_per_host"] = 0
         scn["bystanders"] = hold + [b for b in scn["bystanders"] if b["start"] >= 0][:1]
-    if point in ("dns", "connect"):
+    if point == TLS_POINT and not scn.get("tls"):
+        scn["tls"] = {"delay": 0.0, "fail": False}
+    if point in ("dns", "connect", TLS_POINT):
         # no idle connection / cached answer for the victim's host may exist beforehand
         scn["bystanders"] = [b for b in scn["bystanders"] if not (b["host"] == "v" and b["start"] < 0)]
     return scn
@@ -1523,6 +1589,42 @@ def enumerate_cases(tier, seed):
                 scn["timeout"] = {"kind": "sock_read", "value": 1.5}
                 scn["seg_s2c"] = seg
                 yield _for_stall(scn, point)
+    yield from _tls_cases(tier)
+
+
+def _tls_cases(tier):
+    """5. https target (scripted TLS handshake after the TCP connect)."""
+    quick = tier == "quick"
+    values = (1.5, 7.25) if quick else (0.3, 1.5, 5.0, 7.25)
+    # 5a. the handshake never finishes x timeout kind/value x layout: the time bound and the residue
+    for to in [None] + [{"kind": k, "value": v} for k in ("total", "connect", "sock_connect", "sock_read") for v in values]:
+        for lay in (["none", "same_host_second", "same_host_first", "two"] if quick else list(BY_LAYOUTS)):
+            for thr in ((5,) if quick else (5, 1)):
+                for ips in (1, 2):
+                    scn = _layout(_base_scn(), lay)
+                    scn["timeout"] = dict(to) if to else None
+                    scn["ceil_threshold"] = thr
+                    scn["ips"] = ips
+                    scn["tls"] = {"delay": 0.05, "fail": False}
+                    yield _for_stall(scn, TLS_POINT)
+    # 5b. cancel before every step of the calling task: handshake stalled (no / each covering timeout),
+    #     handshake slow but fine, handshake reset by the peer (one address: error; two: the next one is tried)
+    variants = [(TLS_POINT, None, False, 1)]
+    variants += [(TLS_POINT, {"kind": k, "value": 1.5}, False, 1) for k in TIMEOUT_KINDS if covers(k, TLS_POINT)]
+    variants += [(None, None, False, 1), (None, None, True, 1), (None, None, True, 2),
+                 (None, {"kind": "sock_connect", "value": 1.5}, True, 2)]
+    for point, to, fail, ips in variants:
+        for lay in BY_LAYOUTS:
+            for traces in (False, True):
+                scn = _layout(_base_scn(), lay)
+                scn["timeout"] = dict(to) if to else None
+                scn["traces"] = traces
+                scn["ips"] = ips
+                scn["tls"] = {"delay": 0.3, "fail": fail}
+                scn = _for_stall(scn, point)
+                scn["cancel"] = {"k": "all"}
+                scn["lat"] = 1
+                yield scn
 
 
 def gen(rng, tier, index):
@@ -1589,6 +1691,27 @@ def gen(rng, tier, index):
             scn["body"] = dict(scn["body"], size=min(scn["body"]["size"], 70_000))
     elif scn["op"] == "http" and point is None and rng.random() < 0.2:
         scn["timeout"] = {"kind": "total", "at_step": rng.randrange(0, 12)}
+    # https target (drawn last: every other scenario keeps its shape).  All requests for the victim's host
+    # go through a scripted TLS handshake; in half of these the victim's handshake is the stall point.
+    if rng.random() < 0.12:
+        scn["tls"] = {"delay": rng.choice([0.0, 0.0, 0.002, 0.05, 0.4]), "fail": False}
+        r = rng.random()
+        if r < 0.5:
+            to = scn.get("timeout")
+            if scn["op"] == "ws":
+                to = None  # (ws_connect takes the session's time-outs; only ws_close is set per call here)
+            elif not to or to.get("at_step") is not None or rng.random() < 0.6:
+                to = None
+                if rng.random() < 0.85:
+                    to = {"kind": rng.choice(["total", "connect", "sock_connect", "sock_connect", "sock_read"]),
+                          "value": rng.choice([0.3, 1.5, 2.0, 4.99, 5.0, 5.5, 7.25, 12.0])}
+            dur = None
+            if rng.random() < 0.25:
+                dur = rng.choice([to["value"] * 0.4, to["value"] + 3.0]) if to else rng.choice([0.5, 6.0])
+            scn["timeout"] = to
+            scn = _for_stall(scn, TLS_POINT, dur)
+        elif r < 0.65:
+            scn["tls"]["fail"] = True
     return scn
 
 
@@ -1606,6 +1729,14 @@ def shrink(scn):
     bys = scn.get("bystanders") or []
     for i in range(len(bys)):
         yield dict(scn, bystanders=bys[:i] + bys[i + 1:])
+    tls = scn.get("tls")
+    if tls:
+        if not (scn.get("stall") or {}).get("point") == TLS_POINT:
+            yield dict(scn, tls=None)
+        if tls.get("fail"):
+            yield dict(scn, tls=dict(tls, fail=False))
+        if tls.get("delay"):
+            yield dict(scn, tls=dict(tls, delay=0.0))
     if scn.get("traces"):
         yield dict(scn, traces=False)
     if not scn.get("follow_early", True):
